@@ -184,14 +184,13 @@ def rowOf (nports : Nat) (l : PLine) : Row :=
   let s := semOf nports l
   { line := l.num, instr := l.isInstr, lat := s.lat, latWoLoad := s.latWoLoad, tp := s.tp, pressure := s.pressure }
 
-/-- graph ∘ critical path ∘ loop-carried dependencies ∘ column sums on a selected kernel -/
-def analyze (c : Cfg) (k : List PLine) : Analysis :=
-  let ins := k.map (toIns c.nports)
+/-- graph ∘ critical path ∘ loop-carried dependencies ∘ column sums, on the three views of a kernel -/
+def analyzeCore (c : Cfg) (ins : List DG.Ins) (rows : List Row) (ports : List Ports.Line) : Analysis :=
   let es := DG.create c.isa c.flagDeps c.par ins
   let l := LCD.lcd c.isa c.flagDeps c.par c.floor ins
   let dict := LcdPost.postE (l.map entryOf)
   let best := firstMaxDep dict
-  { rows := k.map (rowOf c.nports)
+  { rows := rows
     edges := es
     cpTotal := LCD.cpTotal ins es
     cpMarks := LCD.cpMarks ins es
@@ -199,7 +198,11 @@ def analyze (c : Cfg) (k : List PLine) : Analysis :=
     lcdDict := dict
     lcdFigure := match best with | some d => d.2.1 | none => 0
     lcdMarks := match best with | some d => d.2.2 | none => []
-    colSums := Ports.colSums Gen.tpSumSkipValue Gen.tpSumDigits (k.map (toPorts c.nports)) }
+    colSums := Ports.colSums Gen.tpSumSkipValue Gen.tpSumDigits ports }
+
+/-- the analysis of a selected kernel -/
+def analyze (c : Cfg) (k : List PLine) : Analysis :=
+  analyzeCore c (k.map (toIns c.nports)) (k.map (rowOf c.nports)) (k.map (toPorts c.nports))
 
 /-- the whole pipeline: selection, then the analysis -/
 def run (c : Cfg) (mode : Mode) (file : List PLine) : Outcome Analysis :=
